@@ -59,7 +59,49 @@ theorem mp_lifecycle_async (kinds : List MP.RKind) (ops : List M.MOp) :
   rw [hs] at this
   simp [M.mcheck, M.mrun, this, M.mrunFrom_length, Spec.Fails.or, Spec.Fails.none]
 
+/-! ### Settled: the at-least-once half of "shut down exactly once" -/
+
+/-- Trace provider: after ANY script (any API calls, any `Choice` of the races of a Shutdown with a done context,
+any asynchronous arrivals in between) followed by the settle step — every goroutine has finished, everything
+outstanding has arrived — the run passes the oracle whose settle clause has EQUALITIES (no `≤`): the exporter of
+every stock processor that was taken out of service (unregistered, provider Shutdown with a live or a done
+context, shut down directly) has seen exactly one Shutdown, every other one none; a batch processor taken out of
+service has exported exactly the spans delivered to it while it was alive; recording processors have seen exactly
+one Shutdown per registration that ended (per-step clause). -/
+theorem tp_lifecycle_settled (kinds : List TP.PKind) (ops : List T.TOp) :
+    T.tcheck kinds (ops ++ [.settle]) (T.trun kinds (ops ++ [.settle])) = Spec.Fails.none :=
+  tp_lifecycle_async kinds _
+
+/-- Logger provider: after any script and any arrivals, at the settle every processor and exporter has seen exactly
+one Shutdown iff the provider's Shutdown has been called — whatever its context and however its races resolved. -/
+theorem lp_lifecycle_settled (kinds : List LP.LKind) (ops : List L.LOp) (l : Nat → Nat) :
+    L.lcheck kinds (ops ++ [.settle l]) (L.lrun kinds (ops ++ [.settle l])) = Spec.Fails.none :=
+  lp_lifecycle_async kinds _
+
+/-- Meter provider: after any script and any arrivals, at the settle every periodic reader's exporter has seen
+exactly one Shutdown iff the provider's Shutdown has been called. -/
+theorem mp_lifecycle_settled (kinds : List MP.RKind) (ops : List M.MOp) (l : Nat → Nat) :
+    M.mcheck kinds (ops ++ [.settle l]) (M.mrun kinds (ops ++ [.settle l])) = Spec.Fails.none :=
+  mp_lifecycle_async kinds _
+
 /-! ### Non-vacuity -/
+
+/-- Shutdown with a cancelled context returns before either goroutine has done anything; the settle brings the
+drain's two exports and exactly one Shutdown for each exporter -/
+def sKinds : List TP.PKind := [.simpleRec, .batchRec]
+def sOps : List T.TOp :=
+  [.api (.tracer 0), .api (.reg 0), .api (.reg 1), .api (.span 0), .api (.span 0),
+   .api (.shutdown .cancelled { e := fun _ => true }), .settle]
+example : T.tcheck sKinds sOps (T.trun sKinds sOps) = Spec.Fails.none := by decide
+example : ((T.trun sKinds sOps).map fun o => ((o.snap 0).n, (o.snap 0).s, (o.snap 1).n, (o.snap 1).s)).drop 5 =
+    [(2, 0, 0, 0), (2, 1, 2, 1)] := by decide
+/-- the settle oracle is not vacuous: an exporter that is never shut down after the raced Shutdown (what the
+mutant `m13` does) fails clause `o`, a drain that never finished clause `m` -/
+example : (T.tcheck sKinds sOps ((T.trun sKinds sOps).take 6 ++
+    [{ res := .none, snap := fun i => if i = 0 then { n := 2, s := 1 } else { n := 2, s := 0 } }])).o = true := by decide
+example : (T.tcheck sKinds sOps ((T.trun sKinds sOps).take 6 ++
+    [{ res := .none, snap := fun i => if i = 0 then { n := 2, s := 1 } else { n := 1, s := 1 } }])).m = true := by decide
+
 
 /-- a simple and a batch processor, two spans, Shutdown with a cancelled context that returns the context error
 before either goroutine has done anything; the drain's two exports, then the two exporter Shutdowns arrive later
